@@ -1,13 +1,674 @@
-//! C16 — placeholder until the C13 part is complete
+//! C16 — the three phases of a mutation called one by one on the real code.
+//!
+//!   case id=<n> prop=c16
+//!   mut i=<i> key=<k> [set=<f>:<v>,…] [room=<1|2>] [add=<k>,…] [pet=<k>|null]     declares mutation i   -> "mut <i>"
+//!   r i=<i>      read phase: `MutationQuery::execute` on the reader connection                          -> "read ok|err"
+//!   v i=<i>      validate + sign: `AuthorisationMessage::Mutation` to the real authorisation actor
+//!                (the writer thread is held, so the validated request waits in the write buffer)       -> "val ok|err"
+//!   w i=<i>,…    the writer runs: every validated request is written, in ONE batch, in FIFO order        -> "acks=oo…"
+//!   state        rows 1..4 and their references as a reader sees them
+//!                -> "rows=<k>:<room>:<mdate>:<f>=<v>;… refs=<src>><label>:<dest>,…"
+//!   stream n=<K> K times: two mutations of one row (different fields) pushed back to back through the
+//!                public `mutation_stream`; lost updates are counted (stats + oracle file)               -> "stream done"
+//! fields: 1 = val, 2 = alt; labels: 1 = parents (array), 2 = pet (single-valued); rooms 1 and 2 grant the same rights.
+use crate::inst::*;
 use crate::CaseOut;
-use dvcommon::{Args, Stats};
+use discret::verif_hooks as vh;
+use dvcommon::{parse_kv, Args, Gen, Stats};
+use std::collections::HashMap;
+use std::io::Write;
 use std::path::Path;
+use std::sync::Arc;
+use tokio::sync::oneshot;
+use vh::database::authorisation_service::AuthorisationMessage;
+use vh::database::mutation_query::MutationQuery;
+use vh::database::query_language::data_model_parser::DataModel;
+use vh::database::query_language::mutation_parser::MutationParser;
+use vh::database::query_language::parameter::{Parameters, ParametersAdd};
+use vh::database::Error as DbError;
+use vh::security::{base64_encode, uid_encode, Uid};
 
-pub fn run_case(case: &[String], _work: &Path, _n: usize, _stats: &mut Stats) -> CaseOut {
-    CaseOut {
-        lines: case.iter().map(|_| "bad-op".to_string()).collect(),
-        oracle: vec![],
+#[derive(Clone, Default)]
+struct MutDecl {
+    key: u64,
+    sets: Vec<(u64, u64)>,
+    room: Option<u64>,
+    adds: Vec<u64>,
+    pet: Option<Option<u64>>,
+}
+
+fn parse_mut(kv: &HashMap<String, String>) -> Option<(usize, MutDecl)> {
+    let i: usize = kv.get("i")?.parse().ok()?;
+    let mut m = MutDecl {
+        key: kv.get("key")?.parse().ok()?,
+        ..Default::default()
+    };
+    if let Some(s) = kv.get("set") {
+        for fv in s.split(',').filter(|x| !x.is_empty()) {
+            let (f, v) = fv.split_once(':')?;
+            let f: u64 = f.parse().ok()?;
+            if f != 1 && f != 2 {
+                return None;
+            }
+            m.sets.push((f, v.parse().ok()?));
+        }
+    }
+    if let Some(r) = kv.get("room") {
+        let r: u64 = r.parse().ok()?;
+        if r != 1 && r != 2 {
+            return None;
+        }
+        m.room = Some(r);
+    }
+    if let Some(a) = kv.get("add") {
+        for k in a.split(',').filter(|x| !x.is_empty()) {
+            m.adds.push(k.parse().ok()?);
+        }
+    }
+    if let Some(p) = kv.get("pet") {
+        m.pet = Some(if p == "null" { None } else { Some(p.parse().ok()?) });
+    }
+    Some((i, m))
+}
+
+struct Ctx {
+    inst: Inst,
+    room2: Uid,
+    dm: DataModel,
+    label_parents: String,
+    label_pet: String,
+    decl: HashMap<usize, MutDecl>,
+    read: HashMap<usize, MutationQuery>,
+    validated: Vec<(usize, oneshot::Receiver<Result<MutationQuery, DbError>>)>,
+    hold: Option<Hold>,
+    n_read: i64,
+    ids: HashMap<u64, Uid>,  // rows of the current case: model key 1..4 -> id
+    keys: HashMap<Uid, u64>,
+}
+
+const T0: i64 = BASE + 3_700_000;
+fn clock16(n: i64) {
+    vh::clock::set(T0 + n * 1000);
+}
+
+impl Ctx {
+    async fn start(dir: &Path, n: usize) -> Result<Ctx, String> {
+        let mut inst = Inst::start(dir.join("db"), secret_of(50_000 + n as u64))
+            .await
+            .map_err(|e| format!("{:?}", e))?;
+        clock16(0);
+        inst.setup().await?;
+        clock16(0);
+        // second room, same rights
+        let mut p = Parameters::default();
+        p.add("me", base64_encode(&inst.me)).unwrap();
+        let q = inst
+            .svc
+            .mutate_raw(
+                r#"mutate { sys.Room{ admin: [{ verif_key:$me }]
+                    authorisations:[{ name:"second" rights:[{ entity:"Item" mutate_self:true mutate_all:true }] users:[{ verif_key:$me }] }] } }"#,
+                Some(p),
+            )
+            .await
+            .map_err(|e| format!("room 2: {:?}", e))?;
+        let room2 = q.mutate_entities[0].node_to_mutate.id;
+        inst.recompute_and_wait().await;
+        let dm: DataModel =
+            serde_json::from_str(&inst.svc.datamodel().await.map_err(|e| format!("{:?}", e))?)
+                .map_err(|e| format!("data model: {}", e))?;
+        let ent = dm.get_entity("Item").map_err(|e| format!("{:?}", e))?;
+        let label_parents = ent.get_field("parents").map_err(|e| format!("{:?}", e))?.short_name.clone();
+        let label_pet = ent.get_field("pet").map_err(|e| format!("{:?}", e))?.short_name.clone();
+        Ok(Ctx {
+            inst,
+            room2,
+            dm,
+            label_parents,
+            label_pet,
+            decl: HashMap::new(),
+            read: HashMap::new(),
+            validated: vec![],
+            hold: None,
+            n_read: 0,
+            ids: HashMap::new(),
+            keys: HashMap::new(),
+        })
+    }
+
+    /// four fresh rows (model keys 1..4) in room 1, field 1 = 0, dated 0; nothing pending
+    async fn begin_case(&mut self, c: usize) -> Result<(), String> {
+        if let Some(h) = self.hold.take() {
+            h.release().await;
+        }
+        self.decl.clear();
+        self.read.clear();
+        self.validated.clear();
+        self.n_read = 0;
+        self.ids.clear();
+        self.keys.clear();
+        for k in 1..=4u64 {
+            clock16(0);
+            let mut p = Parameters::default();
+            p.add("room", uid_encode(&self.inst.room)).unwrap();
+            let q = self
+                .inst
+                .svc
+                .mutate_raw(
+                    &format!(
+                        r#"mutate {{ Item {{ room_id:$room key:"k{}" val:"v0" }} }}"#,
+                        (c as u64 + 1) * 10 + k
+                    ),
+                    Some(p),
+                )
+                .await
+                .map_err(|e| format!("row {}: {:?}", k, e))?;
+            let id = q.mutate_entities[0].node_to_mutate.id;
+            self.ids.insert(k, id);
+            self.keys.insert(id, k);
+        }
+        Ok(())
+    }
+
+    fn request(&self, m: &MutDecl) -> Result<(String, Parameters), String> {
+        let mut p = Parameters::default();
+        let id = self.ids.get(&m.key).ok_or("unknown key")?;
+        p.add("id", uid_encode(id)).unwrap();
+        let mut t = String::from("mutate { Item { id:$id ");
+        if let Some(r) = m.room {
+            p.add("room", uid_encode(if r == 1 { &self.inst.room } else { &self.room2 }))
+                .unwrap();
+            t.push_str("room_id:$room ");
+        }
+        for (f, v) in &m.sets {
+            if *f == 1 {
+                t.push_str(&format!("val:\"v{}\" ", v));
+            } else {
+                t.push_str(&format!("alt:\"a{}\" ", v));
+            }
+        }
+        if !m.adds.is_empty() {
+            t.push_str("parents:[");
+            for (n, k) in m.adds.iter().enumerate() {
+                let id = self.ids.get(k).ok_or("unknown key")?;
+                p.add(&format!("p{}", n), uid_encode(id)).unwrap();
+                t.push_str(&format!("{{id:$p{}}} ", n));
+            }
+            t.push_str("] ");
+        }
+        match m.pet {
+            Some(Some(k)) => {
+                let id = self.ids.get(&k).ok_or("unknown key")?;
+                p.add("pet", uid_encode(id)).unwrap();
+                t.push_str("pet:{id:$pet} ");
+            }
+            Some(None) => t.push_str("pet:null "),
+            None => {}
+        }
+        t.push_str("} }");
+        Ok((t, p))
+    }
+
+    async fn state(&mut self) -> String {
+        let room1 = self.inst.room;
+        let room2 = self.room2;
+        let ent = self.inst.entity_short.clone();
+        let (rows, edges) = self
+            .inst
+            .read(move |conn| {
+                let mut rows: Vec<(Uid, Option<Uid>, String, i64)> = vec![];
+                let mut st = conn
+                    .prepare("SELECT id, room_id, _json, mdate FROM _node WHERE _entity = ?")
+                    .unwrap();
+                let mut q = st.query([&ent]).unwrap();
+                while let Some(r) = q.next().unwrap() {
+                    rows.push((
+                        r.get(0).unwrap(),
+                        r.get(1).unwrap(),
+                        r.get::<_, Option<String>>(2).unwrap().unwrap_or_default(),
+                        r.get(3).unwrap(),
+                    ));
+                }
+                let mut edges: Vec<(Uid, String, Uid)> = vec![];
+                let mut st = conn
+                    .prepare("SELECT src, label, dest FROM _edge WHERE src_entity = ?")
+                    .unwrap();
+                let mut q = st.query([&ent]).unwrap();
+                while let Some(r) = q.next().unwrap() {
+                    edges.push((r.get(0).unwrap(), r.get(1).unwrap(), r.get(2).unwrap()));
+                }
+                (rows, edges)
+            })
+            .await;
+        let mut rs: Vec<(u64, String)> = vec![];
+        for (id, room, json, mdate) in rows {
+            let k = match self.keys.get(&id) {
+                Some(k) => *k,
+                _ => continue,
+            };
+            let v: serde_json::Value = serde_json::from_str(&json).unwrap_or(serde_json::Value::Null);
+            let mut vals: Vec<(u64, u64)> = vec![];
+            if let Some(o) = v.as_object() {
+                for x in o.values() {
+                    if let Some(s) = x.as_str() {
+                        if let Some(n) = s.strip_prefix('v').and_then(|t| t.parse().ok()) {
+                            vals.push((1, n));
+                        } else if let Some(n) = s.strip_prefix('a').and_then(|t| t.parse().ok()) {
+                            vals.push((2, n));
+                        }
+                    }
+                }
+            }
+            vals.sort();
+            let room = match room {
+                Some(r) if r == room1 => 1,
+                Some(r) if r == room2 => 2,
+                _ => 0,
+            };
+            let vs: Vec<String> = vals.iter().map(|(f, v)| format!("{}={}", f, v)).collect();
+            rs.push((
+                k,
+                format!("{}:{}:{}:{}", k, room, (mdate - T0) / 1000, vs.join(";")),
+            ));
+        }
+        rs.sort();
+        let mut es: Vec<(u64, u64, u64)> = vec![];
+        for (s, l, d) in edges {
+            let label = if l == self.label_parents {
+                1
+            } else if l == self.label_pet {
+                2
+            } else {
+                9
+            };
+            if !self.keys.contains_key(&s) {
+                continue;
+            }
+            es.push((self.keys[&s], label, self.keys.get(&d).copied().unwrap_or(99)));
+        }
+        es.sort();
+        format!(
+            "rows={} refs={}",
+            rs.into_iter().map(|x| x.1).collect::<Vec<_>>().join(","),
+            es.iter()
+                .map(|(s, l, d)| format!("{}>{}:{}", s, l, d))
+                .collect::<Vec<_>>()
+                .join(",")
+        )
+    }
+
+    /// the public API: two mutations of one row pushed through `mutation_stream` without waiting
+    async fn stream(&mut self, attempts: u64, stats: &mut Stats, oracle: &mut Vec<(String, String)>) {
+        let mut lost = 0u64;
+        let id = uid_encode(self.ids.get(&1).unwrap());
+        for a in 0..attempts {
+            let (tx, mut rx) = self.inst.svc.mutation_stream();
+            let (v, al) = (1000 + a, 2000 + a);
+            let mut p1 = Parameters::default();
+            p1.add("id", id.clone()).unwrap();
+            let mut p2 = Parameters::default();
+            p2.add("id", id.clone()).unwrap();
+            let _ = tx
+                .send((format!("mutate {{ Item {{ id:$id val:\"v{}\" }} }}", v), Some(p1)))
+                .await;
+            let _ = tx
+                .send((format!("mutate {{ Item {{ id:$id alt:\"a{}\" }} }}", al), Some(p2)))
+                .await;
+            let mut ok = 0;
+            for _ in 0..2 {
+                if let Ok(Some(Ok(_))) = tokio::time::timeout(std::time::Duration::from_secs(20), rx.recv()).await {
+                    ok += 1;
+                }
+            }
+            drop(tx);
+            let st = self.state().await;
+            let row1 = st
+                .split_whitespace()
+                .next()
+                .unwrap_or("")
+                .trim_start_matches("rows=")
+                .split(',')
+                .next()
+                .unwrap_or("")
+                .to_string();
+            let has_v = row1.contains(&format!("1={}", v));
+            let has_a = row1.contains(&format!("2={}", al));
+            if ok == 2 && !(has_v && has_a) {
+                lost += 1;
+                stats.sample(serde_json::json!({"mutation_stream": "both acknowledged", "row_after": row1,
+                    "expected": format!("1={};2={}", v, al)}));
+            }
+        }
+        stats.add("stream.attempts", attempts);
+        stats.add("stream.lost_updates", lost);
+        if lost > 0 {
+            oracle.push((
+                "lost-update-whole-row-rewrite".into(),
+                format!(
+                    "public API: {} of {} pairs of acknowledged mutations of one row pushed through mutation_stream lost one of the two field assignments",
+                    lost, attempts
+                ),
+            ));
+        }
     }
 }
-pub fn enumerate(_a: &Args) {}
-pub fn gen(_a: &Args) {}
+
+async fn run_one(ctx: &mut Ctx, case: &[String], c: usize, stats: &mut Stats, res: &mut CaseOut) {
+    if let Err(e) = ctx.begin_case(c).await {
+        while res.lines.len() < case.len() {
+            res.lines.push(format!("harness-error setup:{}", e).replace(' ', "_"));
+        }
+        return;
+    }
+    for line in &case[1..] {
+        let (kind, kv) = parse_kv(line);
+        let idx = |k: &str| kv.get(k).and_then(|v| v.parse::<usize>().ok());
+        let out: String = match kind.as_str() {
+            "mut" => match parse_mut(&kv) {
+                Some((i, m)) => {
+                    ctx.decl.insert(i, m);
+                    stats.inc("c16.mut");
+                    format!("mut {}", i)
+                }
+                None => "bad-op".into(),
+            },
+            "r" => match idx("i").and_then(|i| ctx.decl.get(&i).cloned().map(|m| (i, m))) {
+                Some((i, m)) if !ctx.read.contains_key(&i) => {
+                    ctx.n_read += 1;
+                    clock16(ctx.n_read);
+                    match ctx.request(&m) {
+                        Ok((text, mut params)) => match MutationParser::parse(&text, &ctx.dm) {
+                            Ok(parser) => {
+                                let parser = Arc::new(parser);
+                                let r = ctx
+                                    .inst
+                                    .read(move |conn| MutationQuery::execute(&mut params, parser, conn))
+                                    .await;
+                                stats.inc("c16.read");
+                                match r {
+                                    Ok(q) => {
+                                        ctx.read.insert(i, q);
+                                        "read ok".into()
+                                    }
+                                    Err(_) => "read err".into(),
+                                }
+                            }
+                            Err(e) => format!("harness-error parse:{:?}", e).replace(' ', "_"),
+                        },
+                        Err(e) => format!("harness-error {}", e).replace(' ', "_"),
+                    }
+                }
+                _ => "bad-op".into(),
+            },
+            "v" => match idx("i").and_then(|i| ctx.read.remove(&i).map(|q| (i, q))) {
+                Some((i, q)) => {
+                    if ctx.hold.is_none() {
+                        match ctx.inst.hold().await {
+                            Ok(h) => ctx.hold = Some(h),
+                            Err(e) => {
+                                res.lines.push(format!("harness-error {}", e).replace(' ', "_"));
+                                continue;
+                            }
+                        }
+                    }
+                    let base = enqueued();
+                    let (tx, mut rx) = oneshot::channel();
+                    let _ = ctx.inst.svc.auth.send(AuthorisationMessage::Mutation(q, tx)).await;
+                    let mut state = 0;
+                    for _ in 0..100_000 {
+                        if enqueued() > base {
+                            state = 1;
+                            break;
+                        }
+                        if rx.try_recv().is_ok() {
+                            state = 2;
+                            break;
+                        }
+                        tokio::time::sleep(std::time::Duration::from_micros(100)).await;
+                    }
+                    stats.inc("c16.validate");
+                    match state {
+                        1 => {
+                            ctx.validated.push((i, rx));
+                            "val ok".into()
+                        }
+                        2 => "val err".into(),
+                        _ => "harness-error validation-lost".into(),
+                    }
+                }
+                None => "bad-op".into(),
+            },
+            "w" => {
+                let want: Vec<usize> = kv
+                    .get("i")
+                    .map(|s| s.split(',').filter_map(|x| x.parse().ok()).collect())
+                    .unwrap_or_default();
+                let have: Vec<usize> = ctx.validated.iter().map(|x| x.0).collect();
+                if want.is_empty() || want != have {
+                    "bad-op".into()
+                } else {
+                    if let Some(h) = ctx.hold.take() {
+                        h.release().await;
+                    }
+                    let mut acks = String::new();
+                    for (_, rx) in ctx.validated.drain(..) {
+                        match tokio::time::timeout(std::time::Duration::from_secs(20), rx).await {
+                            Ok(Ok(Ok(_))) => acks.push('o'),
+                            Ok(Ok(Err(_))) => acks.push('e'),
+                            _ => acks.push('-'),
+                        }
+                    }
+                    stats.inc(&format!("c16.write.batch{}", want.len()));
+                    format!("acks={}", acks)
+                }
+            }
+            "state" => ctx.state().await,
+            "stream" => {
+                let k = kv.get("n").and_then(|v| v.parse().ok()).unwrap_or(10);
+                let mut orc = vec![];
+                ctx.stream(k, stats, &mut orc).await;
+                res.oracle.extend(orc);
+                "stream done".into()
+            }
+            _ => "bad-op".into(),
+        };
+        res.lines.push(out);
+    }
+    if let Some(h) = ctx.hold.take() {
+        h.release().await;
+    }
+}
+
+/// consecutive C16 cases share one running instance (every case works on four fresh rows)
+pub fn run_cases(cases: &[&Vec<String>], work: &Path, n: usize, stats: &mut Stats) -> Vec<CaseOut> {
+    let dir = work.join(format!("dvw16_{}_{}", std::process::id(), n));
+    let _ = std::fs::remove_dir_all(&dir);
+    std::fs::create_dir_all(&dir).unwrap();
+    let r = crate::rt();
+    let out = r.block_on(async {
+        let mut out = vec![];
+        let mut ctx = Ctx::start(&dir, n).await;
+        for (c, case) in cases.iter().enumerate() {
+            let mut res = CaseOut {
+                lines: vec![],
+                oracle: vec![],
+            };
+            let (_, kv) = parse_kv(&case[0]);
+            match kv.get("id").and_then(|v| v.parse::<u64>().ok()) {
+                Some(id) => res.lines.push(format!("case {}", id)),
+                None => {
+                    res.lines = case.iter().map(|_| "bad-op".to_string()).collect();
+                    out.push(res);
+                    continue;
+                }
+            }
+            match &mut ctx {
+                Ok(ctx) => run_one(ctx, case, c, stats, &mut res).await,
+                Err(e) => {
+                    while res.lines.len() < case.len() {
+                        res.lines.push(format!("harness-error start:{}", e).replace(' ', "_"));
+                    }
+                }
+            }
+            stats.inc("c16.cases");
+            out.push(res);
+        }
+        out
+    });
+    r.shutdown_timeout(std::time::Duration::from_millis(200));
+    let _ = std::fs::remove_dir_all(&dir);
+    out
+}
+
+// ------------------------------------------------------------------------------------------------
+// generators
+
+/// all interleavings of the read/write events of `n` mutations with each read before its write; for every
+/// interleaving, the validations are placed right before each maximal run of consecutive writes (one batch
+/// per run) and, as a second variant, right before every single write (one batch per write)
+fn interleavings(n: usize) -> Vec<Vec<(char, usize)>> {
+    fn go(state: &mut Vec<u8>, cur: &mut Vec<(char, usize)>, out: &mut Vec<Vec<(char, usize)>>) {
+        if state.iter().all(|s| *s == 2) {
+            out.push(cur.clone());
+            return;
+        }
+        for i in 0..state.len() {
+            if state[i] < 2 {
+                cur.push((if state[i] == 0 { 'r' } else { 'w' }, i));
+                state[i] += 1;
+                go(state, cur, out);
+                state[i] -= 1;
+                cur.pop();
+            }
+        }
+    }
+    let mut out = vec![];
+    go(&mut vec![0u8; n], &mut vec![], &mut out);
+    out
+}
+
+fn emit_schedule(w: &mut impl Write, rw: &[(char, usize)], batched: bool) {
+    let mut i = 0;
+    while i < rw.len() {
+        if rw[i].0 == 'r' {
+            writeln!(w, "r i={}", rw[i].1).unwrap();
+            i += 1;
+        } else {
+            let mut j = i;
+            while j < rw.len() && rw[j].0 == 'w' {
+                j += 1;
+            }
+            if batched {
+                for e in &rw[i..j] {
+                    writeln!(w, "v i={}", e.1).unwrap();
+                }
+                let ids: Vec<String> = rw[i..j].iter().map(|e| e.1.to_string()).collect();
+                writeln!(w, "w i={}", ids.join(",")).unwrap();
+            } else {
+                for e in &rw[i..j] {
+                    writeln!(w, "v i={}", e.1).unwrap();
+                    writeln!(w, "w i={}", e.1).unwrap();
+                }
+            }
+            i = j;
+        }
+    }
+    writeln!(w, "state").unwrap();
+}
+
+/// the mutation families of the property: different fields, same field, reference add, reference replace,
+/// room move, mixes; 2 and 3 mutations
+fn families(tier: &str) -> Vec<Vec<&'static str>> {
+    let mut f = vec![
+        vec!["key=1 set=1:5", "key=1 set=2:7"],                 // different fields
+        vec!["key=1 set=1:5", "key=1 set=1:6"],                 // same field
+        vec!["key=1 add=2", "key=1 add=3"],                     // reference add (array field)
+        vec!["key=1 pet=2", "key=1 pet=3"],                     // reference replace (single-valued field)
+        vec!["key=1 set=1:5 room=2", "key=1 set=2:7"],          // room move vs field write
+        vec!["key=1 set=1:5", "key=1 add=2"],                   // field write vs reference add
+        vec!["key=1 set=1:5", "key=2 set=1:6"],                 // different rows
+        vec!["key=1 set=1:5", "key=1 set=2:7", "key=1 set=1:8"], // three mutations of one row
+    ];
+    if tier != "quick" {
+        f.push(vec!["key=1 pet=2", "key=1 pet=null"]);
+        f.push(vec!["key=1 set=1:5 room=2", "key=1 set=1:6 room=1"]);
+        f.push(vec!["key=1 set=1:5", "key=1 pet=2", "key=1 add=3"]);
+        f.push(vec!["key=1 set=1:5", "key=2 set=1:6 add=1", "key=1 set=2:7"]);
+        f.push(vec!["key=1 add=2,3", "key=1 add=3,4", "key=1 pet=4"]);
+        f.push(vec!["key=1 set=1:5,2:6", "key=1 set=2:7 room=2", "key=2 pet=1"]);
+    }
+    f
+}
+
+pub fn enumerate(a: &Args) {
+    let tier = a.str_or("tier", "quick");
+    let out = a.str_or("out", "cases16.ops");
+    let mut w = std::io::BufWriter::new(std::fs::File::create(out).unwrap());
+    let mut id = 0u64;
+    let mut per_family = vec![];
+    for fam in families(&tier) {
+        let scheds = interleavings(fam.len());
+        let mut count = 0;
+        for rw in &scheds {
+            for batched in [true, false] {
+                // the two variants coincide when no two writes are adjacent
+                let adjacent = rw.windows(2).any(|p| p[0].0 == 'w' && p[1].0 == 'w');
+                if !batched && !adjacent {
+                    continue;
+                }
+                writeln!(w, "case id={} prop=c16", id).unwrap();
+                id += 1;
+                count += 1;
+                for (i, m) in fam.iter().enumerate() {
+                    writeln!(w, "mut i={} {}", i, m).unwrap();
+                }
+                emit_schedule(&mut w, rw, batched);
+            }
+        }
+        per_family.push(serde_json::json!({"mutations": fam, "rw_interleavings": scheds.len(), "cases": count}));
+    }
+    // the window through the public API
+    writeln!(w, "case id={} prop=c16", id).unwrap();
+    writeln!(w, "stream n={}", if tier == "quick" { 10 } else { 100 }).unwrap();
+    writeln!(w, "state").unwrap();
+    id += 1;
+    w.flush().unwrap();
+    println!("{}", serde_json::json!({"cases": id, "families": per_family}));
+}
+
+/// random sets of 2–3 mutations of rows 1..2 and a random valid schedule
+pub fn gen(a: &Args) {
+    let mut g = Gen::new(a.u64_or("seed", 1));
+    let n = a.usize_or("n", 20);
+    let out = a.str_or("out", "cases16r.ops");
+    let mut w = std::io::BufWriter::new(std::fs::File::create(out).unwrap());
+    for id in 0..n {
+        writeln!(w, "case id={} prop=c16", id).unwrap();
+        let nm = 2 + g.below(2);
+        for i in 0..nm {
+            let key = if g.chance(3, 4) { 1 } else { 2 };
+            let mut parts = vec![format!("key={}", key)];
+            match g.below(5) {
+                0 => parts.push(format!("set=1:{}", 1 + g.below(9))),
+                1 => parts.push(format!("set=2:{}", 1 + g.below(9))),
+                2 => parts.push(format!("set=1:{},2:{}", 1 + g.below(9), 1 + g.below(9))),
+                3 => parts.push(format!("add={}", 2 + g.below(3))),
+                _ => parts.push(if g.chance(1, 4) {
+                    "pet=null".to_string()
+                } else {
+                    format!("pet={}", 2 + g.below(3))
+                }),
+            }
+            if g.chance(1, 5) && !parts.iter().any(|p| p.starts_with("set")) {
+                parts.push(format!("set=1:{}", 1 + g.below(9)));
+            }
+            if g.chance(1, 5) && parts.iter().any(|p| p.starts_with("set")) {
+                parts.push(format!("room={}", 1 + g.below(2)));
+            }
+            writeln!(w, "mut i={} {}", i, parts.join(" ")).unwrap();
+        }
+        let scheds = interleavings(nm);
+        let rw = g.pick(&scheds).clone();
+        emit_schedule(&mut w, &rw, g.chance(1, 2));
+    }
+    w.flush().unwrap();
+}
